@@ -66,6 +66,14 @@ Section Abstract.
                                          nth_error nt (length ds - 1) = Some c -> g' = snd (run_call T G P d c) end).
   Proof. exact (draw_threading T zero G P). Qed.
 
+  (* the first k columns are what the first k dimensions alone draw from the same initial state: later dimensions
+     neither change nor influence them (variables are sampled in model order, unconditional first) *)
+  Theorem C07_prefix_independent : forall (ds1 ds2 : list (sdim T G P)) n g cols' tr' g',
+    draw_cols T zero G P (ds1 ++ ds2) n g [] [] = (cols', tr', g') ->
+    exists g1, draw_cols T zero G P ds1 n g [] [] = (firstn (length ds1) cols', firstn (length ds1) tr', g1) /\
+               draw_cols T zero G P ds2 n g1 (firstn (length ds1) cols') (firstn (length ds1) tr') = (cols', tr', g').
+  Proof. exact (draw_prefix_independent T zero G P). Qed.
+
   (* (b) the sample (with the calls made and the final state) is a function of (model, n, initial state): an int
      seed and a Generator in the state default_rng(seed) produces give identical results, whatever the global
      state; two calls with the same int seed give identical results *)
@@ -121,6 +129,7 @@ Print Assumptions C07_row_pairing.
 Print Assumptions C07_conditional_draw_same_row_partial.
 Print Assumptions C07_unconditional_column.
 Print Assumptions C07_generator_threaded.
+Print Assumptions C07_prefix_independent.
 Print Assumptions C07_seed_reproducible.
 Print Assumptions C07_function_of_initial_state.
 Print Assumptions C07_shape.
